@@ -236,7 +236,7 @@ func TestCheck(t *testing.T) {
 	rec = mon.Open("C12")
 	defer rec.Close()
 	rec.Note("rule", "a case is one topology run against the real managers in a synctest bubble: 0-4 runners drawn from {nil, error, context.Canceled, wrapped Canceled, block-until-cancel (returning nil / an error / ctx.Err), gate-released (nil / error)} finishing in a seeded order, parent context cancelled or not; for the closer manager additionally 0-4 closers of the four accepted types with seeded durations and errors, grace period unset / generous / exceeded, Close before / during / after Run (repeated, concurrent), AddCloser during the run and AddCloser parked at its decision point while Run enters the closing phase, unsupported closer types. The sequence-stamped event log is judged offline. Non-trivial = at least one runner or closer; distinct = distinct topology description.")
-	rec.Note("require", []string{"runner.first_return_cancels_others", "runner.parent_cancel", "closer.fatal_fired", "closer.fatal_not_fired", "closer.close_during_run", "closer.close_before_run", "closer.concurrent_close", "closer.addcloser_during_run", "placed.addcloser_parked", "closer.unsupported_type_rejected", "join.errors_checked", "closer.addcloser_from_a_running_closer_refused", "parent_end.cancel", "parent_end.deadline", "parent_end.cause", "parent_end.already-ended", "racing.addcloser_accepted", "racing.addcloser_rejected", "shared_slice.managers_start_their_own_runners"})
+	rec.Note("require", []string{"runner.first_return_cancels_others", "runner.parent_cancel", "closer.fatal_fired", "closer.fatal_not_fired", "closer.close_during_run", "closer.close_before_run", "closer.concurrent_close", "closer.addcloser_during_run", "placed.addcloser_parked", "closer.unsupported_type_rejected", "join.errors_checked", "closer.addcloser_from_a_running_closer_refused", "closer.returns_context_canceled", "parent_end.cancel", "parent_end.deadline", "parent_end.cause", "parent_end.already-ended", "racing.addcloser_accepted", "racing.addcloser_rejected", "shared_slice.managers_start_their_own_runners"})
 	ps := plans()
 	rec.Planned(len(ps))
 	for idx, pl := range ps {
@@ -638,6 +638,18 @@ func runCloser(t *testing.T, idx int, rng *mon.RNG, placed bool) {
 			maxDur = cs[j].Dur
 		}
 		csents[j] = &sentinel{fmt.Sprintf("closer-sentinel-%d", j)}
+		// a closer's error is reported whatever it is - also when it is (or wraps) a context error, which is
+		// only filtered out for RUNNERS
+		switch rng.Intn(8) {
+		case 0:
+			csents[j] = context.Canceled
+			rec.Count("closer.returns_context_canceled", 1)
+		case 1:
+			csents[j] = fmt.Errorf("closer %d: shutdown interrupted: %w", j, context.Canceled)
+			rec.Count("closer.returns_context_canceled", 1)
+		case 2:
+			csents[j] = context.DeadlineExceeded
+		}
 		cd = append(cd, fmt.Sprintf("%s/%v/err=%v/reenter=%v", cs[j].Type, cs[j].Dur, cs[j].Err, cs[j].Reenter))
 	}
 	csents[nc] = &sentinel{"late-closer-sentinel"}
